@@ -291,6 +291,7 @@ class BodyPath:
     effects: List[Tuple[str, Any]]
     notes: List[str]
     carried: Dict[str, Any] = field(default_factory=dict)
+    watched: Dict[str, Any] = field(default_factory=dict)   # forms of the rule (expected parent, sibling base) as the path knows them: the refinements of the path's symbols applied
 
 
 def carried_variables(st: Structure) -> List[str]:
@@ -374,7 +375,8 @@ def freeze(v: Any):
     return ("?", repr(v)[:60])
 
 
-def run_body(interp: Interp, st: Structure, sib_or_cell: Lin, r_hint: int, preset: Optional[Dict[str, Any]] = None) -> List[BodyPath]:
+def run_body(interp: Interp, st: Structure, sib_or_cell: Lin, r_hint: int, preset: Optional[Dict[str, Any]] = None,
+             watch: Optional[Dict[str, Any]] = None) -> List[BodyPath]:
     """One generic iteration of the scan body with the current cell = the given id form."""
     i = Sym("i", 0, None)
     n = Sym("n", 0, None)
@@ -389,6 +391,8 @@ def run_body(interp: Interp, st: Structure, sib_or_cell: Lin, r_hint: int, prese
     env[st.param] = GenericList("input")
     for k, v in (preset or {}).items():
         env[k] = v
+    for k, v in (watch or {}).items():
+        env[f"<watch {k}>"] = v      # not a Python name: only refine() touches it (a guard that narrows a symbol narrows it here as well)
     state.frames = [env]
     saved = interp.unroll_ranges
     interp.unroll_ranges = 16
@@ -418,6 +422,7 @@ def run_body(interp: Interp, st: Structure, sib_or_cell: Lin, r_hint: int, prese
         adv = (base(idx2) - Lin.of(i)) if isinstance(idx2, Lin) else Unknown("index")
         bp = BodyPath(appended, adv, e2.get(st.flag), [(base(c), t) for c, t, _ in s2.path], sig, list(s2.effects), list(s2.notes))
         bp.carried = {k: e2.get(k) for k in (preset or {})}
+        bp.watched = {k: base(e2.get(f"<watch {k}>")) for k in (watch or {}) if isinstance(e2.get(f"<watch {k}>"), Lin)}
         paths.append(bp)
     return paths
 
